@@ -37,7 +37,8 @@ var ErrNamingFormat = errors.New("不支持的命名样式")
 // 理论上甚至可以使用分隔符如 go#Designer，但还是要遵循操作系统的文件命名规范。
 // 注意：FileNamingFormat 基于蛇式或驼峰。
 func FileNamingFormat(format, content string) (string, error) {
-	upperFormat := strings.ToUpper(format)
+	// 仅折叠 ASCII 字母：保持字节长度不变，下面求得的索引才能直接用于切分 format。
+	upperFormat := asciiUpper(format)
 	indexGo := strings.Index(upperFormat, flagGo)
 	indexDesigner := strings.Index(upperFormat, flagDesigner)
 	if indexGo < 0 || indexDesigner < 0 || indexGo > indexDesigner {
@@ -73,6 +74,18 @@ func FileNamingFormat(format, content string) (string, error) {
 	formatStyle.through = through
 	formatStyle.after = after
 	return doFormat(formatStyle, content)
+}
+
+// asciiUpper 将 ASCII 小写字母转为大写，其余字节保持不变（长度不变）。
+func asciiUpper(s string) string {
+	b := []byte(s)
+	for i, c := range b {
+		if 'a' <= c && c <= 'z' {
+			b[i] = c - 'a' + 'A'
+		}
+	}
+
+	return string(b)
 }
 
 func doFormat(format styleFormat, content string) (string, error) {
